@@ -5,7 +5,7 @@ Import ListNotations.
 Local Open Scope nat_scope.
 
 Definition world0 (w : world) (t : txn) : world :=
-  mkWorld (t_objs t) (w_branch w) (w_stack w) (w_prefs w) (t_wt t) (t_wt_unmerged t) (w_base w).
+  mkWorld (t_objs t) (w_branch w) (w_stack w) (w_prefs w) (t_wt t) (t_wt_unmerged t) (w_base w) (w_apc w).
 
 Definition logged_of (w : world) (t : txn) : option (world * sstate) :=
   if Nat.eqb (s_head (t_stack t)) (w_branch w) then Some (world0 w t, t_stack t)
@@ -28,7 +28,7 @@ Lemma execute_spec : forall w r msg t w' x,
                state_commit (w_objs w1) (new_state t st1 prev trans_head) msg = Some (objs', so) /\
                w' = mkWorld objs' (if o_set_head (t_opts t) then trans_head else w_branch w1)
                             (Some so) prefs' wt um
-                            (match t_base t with Some b => b | None => w_base w1 end) /\
+                            (match t_base t with Some b => b | None => w_base w1 end) (w_apc w1) /\
                x = match r with THalt _ _ => X3 | _ => X0 end))).
 Proof.
   intros w r msg t w' x Hr H.
@@ -87,7 +87,7 @@ Proof.
                                             end) (w_prefs w1) (t_updated t) in
                             let branch' := if o_set_head o then trans_head else w_branch w1 in
                             let w2 := mkWorld objs' branch' (Some so) prefs' wt' um'
-                                              (match t_base t with Some b => b | None => w_base w1 end) in
+                                              (match t_base t with Some b => b | None => w_base w1 end) (w_apc w1) in
                             match halted with
                             | Some _ => (w2, X3)
                             | None => (w2, X0)
@@ -320,7 +320,7 @@ Lemma open_stack_cases : forall p w op,
   \/ (exists objs' so, (p = PForce \/ w_stack w = None)
       /\ state_commit (w_objs w) (empty_state (w_branch w)) MOp = Some (objs', so)
       /\ op_world op = ensure_patch_refs
-           (mkWorld objs' (w_branch w) (Some so) (w_prefs w) (w_wt w) (w_unmerged w) (w_base w))
+           (mkWorld objs' (w_branch w) (Some so) (w_prefs w) (w_wt w) (w_unmerged w) (w_base w) (w_apc w))
            (empty_state (w_branch w))
       /\ op_state op = empty_state (w_branch w) /\ op_base op = w_branch w
       /\ op_initialized op = true)
@@ -345,13 +345,13 @@ Proof.
     match state_commit (w_objs w) (empty_state (w_branch w)) MOp with
     | Some (objs', so) =>
         Some (mkOpened (ensure_patch_refs
-                 (mkWorld objs' (w_branch w) (Some so) (w_prefs w) (w_wt w) (w_unmerged w) (w_base w))
+                 (mkWorld objs' (w_branch w) (Some so) (w_prefs w) (w_wt w) (w_unmerged w) (w_base w) (w_apc w))
                  (empty_state (w_branch w))) (empty_state (w_branch w)) (w_branch w) true)
     | None => None end = Some op ->
     exists objs' so, (p = PForce \/ w_stack w = None)
       /\ state_commit (w_objs w) (empty_state (w_branch w)) MOp = Some (objs', so)
       /\ op_world op = ensure_patch_refs
-           (mkWorld objs' (w_branch w) (Some so) (w_prefs w) (w_wt w) (w_unmerged w) (w_base w))
+           (mkWorld objs' (w_branch w) (Some so) (w_prefs w) (w_wt w) (w_unmerged w) (w_base w) (w_apc w))
            (empty_state (w_branch w))
       /\ op_state op = empty_state (w_branch w) /\ op_base op = w_branch w
       /\ op_initialized op = true).
